@@ -118,15 +118,19 @@ def nextChar (d : List Byte) (c : Byte) : Nat := (find (· == c) d).getD d.lengt
 /-- white space outside quotes ends an argument -/
 def wsTok : TokArgs := { tok := some [9, 32, 10, 13, 11], com := [], esc := [39, 34] }
 
+/-- remove leading white space (nothing is removed from an all-white-space text) -/
+def trimFlat (d : List Byte) : List Byte :=
+  match find notSpace d with
+  | some p => d.drop p
+  | none => d
+
 /-- `mpt_message_argv`: `none` = MissingData (nothing left), else (length of the next argument,
     content after removing leading white space) -/
 def argv (d : List Byte) (sep : Byte) : Option (Nat × List Byte) :=
   if d.isEmpty then none
   else if sep == 0 then some (nextChar d 0, d)
   else
-    let d' := match find notSpace d with
-      | some p => d.drop p
-      | none => d
+    let d' := trimFlat d
     if !isGraph sep then
       match tok d' wsTok with
       | some p => some (p, d')
